@@ -251,11 +251,12 @@ Fixpoint replace_nth {A} (n : nat) (x : A) (l : list A) : list A :=
 Definition mutate_here (c : N) (j : json) : json :=
   match j with
   | JObj ms =>
-      match pick c 1 5 with
+      match pick c 1 6 with
       | 0 => JObj (ms ++ [(JStr s_unknown, JNum [48])])                     (* unknown key *)
       | 1 => match ms with m :: _ => JObj (ms ++ [m]) | [] => JObj [(JStr s_unknown, JNull)] end   (* duplicate key *)
       | 2 => JObj (set_ok_false ms)                                          (* ok:false with value *)
       | 3 => JObj (removelast ms)
+      | 4 => JObj (rev (set_ok_false ms))                                    (* the same, members in the other order *)
       | _ => JArr []
       end
   | JArr es =>
@@ -300,4 +301,57 @@ Fixpoint mutate (depth : nat) (c : N) (j : json) : json :=
           end
       | _ => mutate_here c j
       end
+  end.
+
+(** * Maybe objects, exhaustively: at EVERY object of the tree that looks like a Maybe (member names among
+    "ok" / "value"), every shape the reader has a rule for, in both member orders -- the reader's checks
+    (Json2ReadMaybe) run after its member loop and must not depend on the order *)
+Definition key_named (nm : bytes) (m : json * json) : bool :=
+  match fst m with JStr k => bytes_eqb k nm | _ => false end.
+
+Definition maybe_forms (ms : list (json * json)) : list json :=
+  if forallb (fun m => key_named s_ok m || key_named s_value m) ms then
+    match find (key_named s_value) ms with
+    | Some (_, x) =>
+        [ JObj [(JStr s_ok, JBool false); (JStr s_value, x)];          (* ok:false with a value: rejected *)
+          JObj [(JStr s_value, x); (JStr s_ok, JBool false)];          (* ... whatever the order *)
+          JObj [(JStr s_ok, JBool true); (JStr s_value, x)];
+          JObj [(JStr s_value, x); (JStr s_ok, JBool true)];
+          JObj [(JStr s_value, x)];
+          JObj [(JStr s_ok, JBool true)];                              (* value absent: the empty value *)
+          JObj [(JStr s_ok, JBool false)];
+          JObj [(JStr s_value, x); (JStr s_value, x)];                 (* duplicates *)
+          JObj [(JStr s_value, x); (JStr s_ok, JBool true); (JStr s_value, x)];
+          JObj [(JStr s_ok, JBool true); (JStr s_value, x); (JStr s_ok, JBool true)];
+          JObj [(JStr s_ok, JBool false); (JStr s_ok, JBool true); (JStr s_value, x)];
+          JObj [(JStr s_value, x); (JStr s_ok, JNum [49])];            (* ok that is not a boolean *)
+          JObj [(JStr s_value, x); (JStr s_ok, JBool true); (JStr s_unknown, JNull)] ]
+    | None =>
+        match ms with
+        | [] => []                                                       (* {} may be any empty struct *)
+        | _ => [ JObj [(JStr s_ok, JBool false)]; JObj [(JStr s_ok, JBool true)];
+                 JObj [(JStr s_ok, JBool true); (JStr s_ok, JBool true)];
+                 JObj [(JStr s_ok, JBool false); (JStr s_ok, JBool false)];
+                 JObj [(JStr s_ok, JNull)] ]
+        end
+    end
+  else [].
+
+(** all trees that differ from [j] in exactly one Maybe-like object *)
+Fixpoint jvariants (j : json) : list json :=
+  match j with
+  | JObj ms =>
+      maybe_forms ms
+      ++ map JObj ((fix go (l : list (json * json)) : list (list (json * json)) :=
+                      match l with
+                      | [] => []
+                      | m :: r => map (fun x' => (fst m, x') :: r) (jvariants (snd m)) ++ map (cons m) (go r)
+                      end) ms)
+  | JArr es =>
+      map JArr ((fix go (l : list json) : list (list json) :=
+                   match l with
+                   | [] => []
+                   | e :: r => map (fun e' => e' :: r) (jvariants e) ++ map (cons e) (go r)
+                   end) es)
+  | _ => []
   end.
